@@ -251,6 +251,10 @@ void harness(void)
         executed++;
         size_t d0 = binson_parser_get_depth(&p);
         (void) d0;
+        bool op_r = false;                 /* result of this op (C09) */
+        binson_err err_b = p.error_flags;
+        size_t used_b9 = p.buffer_used;
+        size_t depth_b9 = p.depth;
 #if PROPSET == 16
         size_t used_before = p.buffer_used;
         cb_count = 0;
@@ -260,6 +264,7 @@ void harness(void)
         switch (op) {
         case 1: case 2: {
             bool r = (op == 1) ? binson_parser_go_into_object(&p) : binson_parser_go_into_array(&p);
+            op_r = r;
             all_ok = all_ok && r;
 #if MODE == 1
             rc_enter(&c, op == 1 ? RK_OBJ_BEGIN : RK_ARR_BEGIN);
@@ -277,6 +282,7 @@ void harness(void)
             bool r;
             if (op == 3) r = binson_parser_next(&p);
             else r = binson_parser_next_ensure(&p, (binson_type) IN.ftype[k]);
+            op_r = r;
             lib_onvalue = r;
 #if MODE == 1
             if (c.pending) complete = false;
@@ -303,6 +309,7 @@ void harness(void)
         }
         case 4: case 5: {
             bool r = (op == 4) ? binson_parser_leave_object(&p) : binson_parser_leave_array(&p);
+            op_r = r;
             all_ok = all_ok && r;
 #if MODE == 1
             {
@@ -325,6 +332,7 @@ void harness(void)
             bbuf raw; raw.bptr = NULL; raw.bsize = 0;
             size_t used_b = p.buffer_used; size_t depth_b = p.depth;
             bool r = binson_parser_get_raw(&p, &raw);
+            op_r = r;
 #if MODE == 1
             size_t s0 = 0, s1 = 0;
             complete = false;
@@ -393,6 +401,7 @@ void harness(void)
                 ASSUME(nl <= FNAMEMAX);
                 r = binson_parser_field_with_length(&p, nm, nl);
             }
+            op_r = r;
             lib_onvalue = r;
 #if MODE == 1
             complete = false;
@@ -432,6 +441,22 @@ void harness(void)
         }
         default: break;
         }
+#if PROPSET == 9
+        /* C09 (API-only form): once some call has set an error, every later advancing call returns false, nothing moves,
+           the getters are neutral and the error stays set (reset / verify excepted) */
+        if (err_b != BINSON_ERROR_NONE && op != 12 && op != 13) {
+            CHECK(!op_r, "C09 advancing call returns false once an error is set");
+            CHECK(p.error_flags != BINSON_ERROR_NONE, "C09 the error stays set");
+            CHECK(p.buffer_used == used_b9 && p.depth == depth_b9, "C09 nothing advances once an error is set");
+            CHECK(binson_parser_get_type(&p) == BINSON_TYPE_NONE && binson_parser_get_name(&p) == NULL &&
+                  binson_parser_get_string_bbuf(&p) == NULL && binson_parser_get_bytes_bbuf(&p) == NULL &&
+                  binson_parser_get_integer(&p) == 0 && !binson_parser_get_boolean(&p) && dbits(binson_parser_get_double(&p)) == 0,
+                  "C09 getters are neutral once an error is set");
+        }
+        if (err_b == BINSON_ERROR_NONE && p.error_flags != BINSON_ERROR_NONE && op != 12 && op != 13) {
+            CHECK(!op_r, "C09 the call that raises an error returns false");
+        }
+#endif
 #if PROPSET == 16
         if (op != 12 && op != 13) {
             CHECK(p.buffer_used >= used_before, "C16 a call never leaves the cursor before its starting point");
@@ -472,7 +497,9 @@ script_end:
 #if MODE == 1 && PROPSET != 10
     COVER(executed == SLEN, "main: every op of the script was protocol-following for some valid document");
 #endif
-#if MODE == 3
+#if MODE == 3 && PROPSET == 9
+    COVER(executed == SLEN && p.error_flags != BINSON_ERROR_NONE, "main: script ran on after an error");
+#elif MODE == 3
     COVER(executed == SLEN, "main: every op of the script was executed");
 #endif
 }
